@@ -321,10 +321,19 @@ class Baton:
         self.switches.append([0, -1, first.idx, "start"])
         self.cur = first
         first.sem.release()
-        if not self.finished.wait(timeout):
-            stuck = [c.idx for c in self.clients if not c.done]
-            raise SchedulerStall(f"clients {stuck} made no progress for {timeout:.0f} s of wall-clock time (deadlock among clients, "
-                                 f"or a client blocked outside the scheduler's control)")
+        # stall = no pre-emption point and no logical step for `timeout` seconds (not: the run takes that long - a
+        # loaded machine slows everything down, which must never turn into a verdict)
+        import time
+
+        last, since = (self.points, MONITOR.steps), time.monotonic()
+        while not self.finished.wait(min(2.0, timeout)):
+            now = (self.points, MONITOR.steps)
+            if now != last:
+                last, since = now, time.monotonic()
+            elif time.monotonic() - since >= timeout:
+                stuck = [c.idx for c in self.clients if not c.done]
+                raise SchedulerStall(f"clients {stuck} made no progress for {timeout:.0f} s of wall-clock time (deadlock among clients, "
+                                     f"or a client blocked outside the scheduler's control)")
         for c in self.clients:
             c.thread.join(5.0)
         return self.clients
@@ -347,14 +356,23 @@ class WallGuard:
         self.armed = False
 
     def _handler(self, signum, frame):
-        raise WallBudgetExceeded(f"no return within {self.seconds:.0f} s of wall-clock time")
+        # fires every quarter of the limit; only a period without a single logical step counts (a slow machine
+        # slows the steps down but does not stop them; a thread blocked on its own lock executes nothing)
+        now = MONITOR.steps
+        if now != self._last:
+            self._last, self._idle = now, 0
+            return
+        self._idle += 1
+        if self._idle >= 4:
+            raise WallBudgetExceeded(f"no progress (not a single line of the library executed) for {self.seconds:.0f} s of wall-clock time")
 
     def __enter__(self):
         import signal
 
         if threading.current_thread() is threading.main_thread():
+            self._last, self._idle = MONITOR.steps, 0
             self._old = signal.signal(signal.SIGALRM, self._handler)
-            signal.setitimer(signal.ITIMER_REAL, self.seconds)
+            signal.setitimer(signal.ITIMER_REAL, self.seconds / 4, self.seconds / 4)
             self.armed = True
         return self
 
